@@ -105,6 +105,10 @@ class Pool:
             n, _, _j = rest.partition("#")
             return FPerson("p" + n, int(n))
         if flavour == "w":
+            if int(rest) == 9:
+                # a user dict that has a field called "kind" (reserved in typed trees
+                # only; drawn for trees without a typed slot)
+                return self._nt.DictWrapper({"val": 9, "kind": "user-kind"})
             return self._nt.DictWrapper({"val": int(rest)})
         if flavour == "o":
             return Obj("g" + rest, "o" + rest)
@@ -164,6 +168,8 @@ def decode_value(d: dict, nutree_mod):
     if t == "obj":
         return Obj(d["guid"], d["name"])
     if t == "wrap":
+        if int(d["v"]) == 9:
+            return nutree_mod.DictWrapper({"val": 9, "kind": "user-kind"})
         return nutree_mod.DictWrapper({"val": int(d["v"])})
     if t == "udict":
         return {"guid": d["guid"], "u": int(d["v"])}
